@@ -8,7 +8,13 @@ Observed on the real asn1c built from the working tree (exploration, not proof):
  (b) fixpoint t2 == t1 and acceptance of t1, same generated per-type code for t0 and t1;
  (c) determinism of the generated tree over repeated runs (ASLR on, padded environment);
  (d) per-type files independent of the order of the file list (all permutations);
- (e) print/parse fixpoint over the shipped corpus."""
+ (e) print/parse fixpoint over the shipped corpus;
+ (f) rich modules (FROM tables, parameterised types, information objects, tag maps, option sets): identical output
+     trees in five differently shaped processes (environment size, locale, no ASLR, valgrind), valgrind memcheck
+     silent, permitted-alphabet tables a function of the alphabet alone;
+ (g) module sets with cross-module name clashes, every file order: per-type files identical, and their names equal
+     to the clash-marking model's (coq/Fix/NameClash.v: proved invariant under permutation of the module list);
+ (h) code generation from the shipped corpus through the same process-image / valgrind / table oracles."""
 import sys, os, itertools, hashlib
 from concurrent.futures import ThreadPoolExecutor
 sys.path.insert(0, os.path.join(os.path.dirname(os.path.abspath(__file__)), "..", "lib"))
@@ -1088,16 +1094,20 @@ def main(tier):
           "extraction: ExtrOcamlBasic only; OCaml 4.13.1; ocaml/drv_c12.ml (AST reader)",
           "checks/c12.py + checks/c12_gen.py: generator, renderer, yacc_norm (the constraint-tree shape yacc builds), file comparison, finding classifiers",
           "asn1c built by vlib.build_asn1c() from the working tree; kernel.randomize_va_space=" + aslr,
-          "determinism / file-order / same-code / corpus fixpoint are observations of the C process on the generated cases, not theorems"]
+          "valgrind " + ("3.19 memcheck (--error-exitcode, leak check off)" if VALGRIND else "NOT AVAILABLE: uninitialised-read oracle skipped") + "; setarch -R " + ("available" if SETARCH else "not available"),
+          "determinism / file-order / same-code / corpus fixpoint / alphabet tables are observations of the C process on the generated cases, not theorems; the naming theorems (NameClash) are tied to the C only through the file names of the generated clash sets"]
     return run.finish("proof", (nthm, ndis), trusted_base=tb,
                       checker_cmd="make -C /verif all && coqc -Q coq A1 coq/Props/Properties_C12.v",
                       extra_cov={"theorems": names,
+                                 "rule2": "also a case: one rich module (text generator, one of 12 option sets), one clash set (2-3 files with cross-module name clashes, every file order), one corpus file compiled to code",
                                  "rule": "a case = one generated module (random AST of the modelled algebra rendered with random layout, comments, UNION/INTERSECTION spellings) or one multi-file module set (all permutations of the file list) or one shipped corpus file",
-                                 "observed_not_proved": ["determinism (3 runs per module, padded environment, ASLR=" + aslr + ")", "file-order independence", "same generated code for t0 and asn1c -E t0", "corpus fixpoint"],
+                                 "observed_not_proved": ["determinism (3 runs per model-algebra module; 5 process shapes incl. valgrind per rich module / clash set / corpus file; ASLR=" + aslr + ")", "valgrind memcheck silent", "permitted-alphabet tables = function of the alphabet", "file-order independence", "same generated code for t0 and asn1c -E t0", "corpus fixpoint"],
                                  "traces_validated_against_impl": run.dist.get("faithfulness_cases", 0)},
                       assumptions=["the yacc grammar is not modelled; the reference parser is tied to asn1c only through -E outputs",
                                    "per-type files = generated files carrying the `From ASN.1 module` header; Makefile.am.libasncodec / pdu_collection.c listing order under file permutation is recorded, not compared",
-                                   "generation runs use -pdu=all -fcompound-names"])
+                                   "model-algebra modules are generated with -pdu=all -fcompound-names; rich modules and clash sets with one of 12 option sets",
+                                   "module OIDs are outside the naming model (generated clash sets have none)",
+                                   "-D spellings: per-type files are compared with the header line quoting the command line removed"])
 
 
 def classify_rich_fixpoint(m, t1, rc1, se1):
